@@ -10,7 +10,7 @@ from vf.core import Suite, coq_list, coq_bool, coq_N, coq_Z
 from vf.gen import pick_weighted
 
 ID = "C12"
-THEOREMS = ["C12_roundtrip", "C12_entry_roundtrip", "C12_varint", "C12_reuc_stage_order", "C12_reuc_maporder_refuted"]
+THEOREMS = ["C12_roundtrip", "C12_entry_roundtrip", "C12_entry_size_git", "C12_varint", "C12_reuc_stage_order", "C12_reuc_maporder_refuted"]
 MODEL_FILES = ["IndexFile.v"]
 MODELLED = ("plumbing/format/index: Encoder.Encode (sort, entry layout, V2/3 padding, V4 prefix compression, footer / skip-hash) and "
             "Decoder.Decode (header, readEntry, padEntry incl. long names, V4 strip-length checks, extension loop, TREE / REUC / EOIE "
@@ -479,7 +479,7 @@ class Dec(Suite):
     go_cmd = "c12"
     coq_imports = "From GoGit Require Import Model.IndexFile."
     quick_n = 120
-    thorough_n = 3000
+    thorough_n = 900
     coq_chunk = 40
 
     def gen(self, rng, n, tier):
@@ -587,7 +587,7 @@ class Enc(Suite):
     go_cmd = "c12"
     coq_imports = "From GoGit Require Import Model.IndexFile."
     quick_n = 80
-    thorough_n = 3000
+    thorough_n = 1200
     coq_chunk = 40
 
     def gen(self, rng, n, tier):
